@@ -1,7 +1,8 @@
 (* C09 — Percentage fees are exact, rounded up once, never negative.  Property theorems only.
    Fees are negative numbers in the model, as in the code (OrderInfo.fees reports their opposite). *)
 From Coq Require Import ZArith QArith List.
-From Basana Require Import Num.DecQ Num.DecQProofs Exchange.Model Exchange.FeeProofs.
+From Basana Require Import Num.DecQ Num.DecQProofs Exchange.Model Exchange.FeeProofs Exchange.OrderProofs
+     Exchange.Structure Exchange.FeeHistory.
 Import ListNotations.
 Open Scope Q_scope.
 
@@ -54,3 +55,46 @@ Example C09_two_small_fills :
   | None => False
   end.
 Proof. vm_compute. reflexivity. Qed.
+
+(* whole history: in every state reachable through any operation sequence whose bars are well formed with positive
+   prices, under any percentage scheme, for every order: nothing traded and nothing charged, or the total charged is
+   the percentage of the total traded quote amount, at least the minimum, rounded up to the quote precision of the
+   order's pair (fees are negative numbers in the model) *)
+Theorem C09_fees_follow_the_formula_in_every_reachable_state : forall c pct mn,
+  c_fee c = PctFee pct mn -> 0 <= pct -> 0 <= mn -> impact_cfg_ok c ->
+  forall initial ops i o bp qp,
+  cfg_ok c -> ops_ok ops -> bars_ok ops ->
+  nth_error (s_orders (run c (init_st initial) ops)) i = Some o ->
+  get_pair_info c (o_pair o) = Ok (bp, qp) ->
+  (o_fq o == 0 /\ o_fee o == 0) \/
+  (~ o_fq o == 0 /\ o_fee o == qroundup qp (- Qmaxq (Qabsq (o_fq o) * pct / 100) mn)).
+Proof. exact fees_follow_formula_reachable. Qed.
+Print Assumptions C09_fees_follow_the_formula_in_every_reachable_state.
+
+Theorem C09_no_fee_scheme_never_charges : forall c initial ops i o,
+  c_fee c = NoFee -> cfg_ok c -> ops_ok ops ->
+  nth_error (s_orders (run c (init_st initial) ops)) i = Some o -> o_fee o == 0.
+Proof. exact no_fee_reachable. Qed.
+Print Assumptions C09_no_fee_scheme_never_charges.
+
+(* the premises are met by a history in which an order is filled in two slivers under a fee with a minimum *)
+Example C09_history_premises_met :
+  let c := mkCfg [(1%positive, 2%nat); (2%positive, 2%nat)] [] None (PctFee (1#4) (1#2)) (VolShare 25 0) NoLoans in
+  let p := (1%positive, 2%positive) in
+  let ops := [OBar p 60%Z (mkBar 100 100 100 100 10); OCreate (KLimit (10001#100)) Buy p 5 false false;
+              OBar p 120%Z (mkBar 100 101 99 100 (4#10)); OBar p 180%Z (mkBar 100 101 99 100 (41#7))] in
+  let s := run c (init_st [(2%positive, 1000)]) ops in
+  impact_cfg_ok c /\ cfg_ok c /\ ops_ok ops /\ bars_ok ops /\
+  match nth_error (s_orders s) 0 with
+  | Some o => length (o_fills o) = 2%nat /\ Qeq_bool (o_fq o) (-156) = true /\ Qeq_bool (o_fee o) (- (1#2)) = true
+  | None => False
+  end.
+Proof.
+  cbv zeta. split; [unfold impact_cfg_ok; cbn; discriminate|]. split; [unfold cfg_ok; cbn; discriminate|].
+  split; [repeat constructor; cbn; discriminate|].
+  split.
+  - intros p w b Hin. cbn [In] in Hin.
+    repeat (destruct Hin as [Hin|Hin]; [try discriminate Hin; inversion Hin; subst; unfold bar_ok; cbn; repeat split; discriminate|]).
+    contradiction.
+  - vm_compute. repeat split; reflexivity.
+Qed.
